@@ -99,6 +99,15 @@ Definition unmarshal (L : layout) (buf : list N) : outcome (list fval) :=
    same order (obind is strict left to right). *)
 
 (* ---------- well-formed layouts (the hypothesis of the C18 theorems) ---------- *)
+(* bytes a field occupies: data fields at their offset, the header fields at bytes 0 (SOM) and 1 (MsgType) *)
+Definition fspan (f : field) : option (nat * nat) :=
+  match f with
+  | FSOM _ => Some (0, 1)%nat
+  | FMsgType _ => Some (1, 1)%nat
+  | FData k off _ => Some (off, width k)
+  | _ => None
+  end.
+
 Definition data_span (f : field) : option (nat * nat) :=
   match f with FData k off _ => Some (off, width k) | _ => None end.
 
@@ -106,11 +115,14 @@ Definition span_ok (s : nat * nat) : bool := Nat.leb 2 (fst s) && Nat.leb (fst s
 Definition spans_disjoint (a b : nat * nat) : bool :=
   Nat.leb (fst a + snd a) (fst b) || Nat.leb (fst b + snd b) (fst a).
 
-Fixpoint spans (L : layout) : list (nat * nat) :=
+Fixpoint collect {A} (g : field -> option A) (L : layout) : list A :=
   match L with
   | [] => []
-  | f :: L' => match data_span f with Some s => s :: spans L' | None => spans L' end
+  | f :: L' => match g f with Some s => s :: collect g L' | None => collect g L' end
   end.
+
+Definition spans (L : layout) : list (nat * nat) := collect data_span L.
+Definition all_spans (L : layout) : list (nat * nat) := collect fspan L.
 
 Fixpoint pairwise_disjoint (l : list (nat * nat)) : bool :=
   match l with
@@ -132,9 +144,8 @@ Definition field_supported (f : field) : bool :=
 
 Definition count_msgtype (L : layout) : nat :=
   length (filter (fun f => match f with FMsgType _ => true | _ => false end) L).
-Definition count_som (L : layout) : nat :=
-  length (filter (fun f => match f with FSOM _ => true | _ => false end) L).
 
+(* supported kinds and parseable tags; every data field inside bytes 2..63; no two fields (header fields
+   included, so at most one SOM and one MsgType) share a byte *)
 Definition wf_layout (L : layout) : bool :=
-  forallb field_supported L && forallb span_ok (spans L) && pairwise_disjoint (spans L)
-  && Nat.leb (count_msgtype L) 1 && Nat.leb (count_som L) 1.
+  forallb field_supported L && forallb span_ok (spans L) && pairwise_disjoint (all_spans L).
